@@ -44,7 +44,8 @@ WHITELIST = {("cp_mode_dot", "cp_tensor"): lambda kw: not kw.get("copy", False),
              ("hals_nnls", "V"): lambda kw: True}
 DRIVERS = ["c02", "c03", "c04", "c05", "c06", "c10", "c11", "c12", "c13", "c14", "c19", "c20"]
 OWN = ["own_decomp", "own_fault", "own_misc"]
-CASE_TIMEOUT = {"quick": 180, "thorough": 300}
+CASE_TIMEOUT = {"quick": 180, "thorough": 3000}
+WALL_BUDGET = {"quick": 900, "thorough": 5400}
 
 _TL = threading.local()
 _STATE = {"ctx": None, "installed": False}
@@ -217,8 +218,12 @@ def make_sanitizer(qualname, is_method=False):
                             ctx.violation("C15:%s:argument-modified:%s" % (short, pname),
                                           "%s modified its caller-owned argument `%s` (%s)%s" % (qualname, pname, why, " [call raised %s]" % type(raised).__name__ if raised is not None else ""),
                                           {"entry": qualname, "param": pname, "kinds": sigk, "driver_case": getattr(_TL, "driver_case", None)})
-        wrapper.__name__ = getattr(fn, "__name__", "wrapped")
-        wrapper.__doc__ = getattr(fn, "__doc__", None)
+        for attr in ("__module__", "__name__", "__qualname__", "__doc__"):
+            try:
+                setattr(wrapper, attr, getattr(fn, attr))
+            except AttributeError:
+                pass
+        wrapper.__wrapped__ = fn
         try:
             wrapper.__signature__ = sig
         except Exception:  # noqa
@@ -269,6 +274,8 @@ def plan(tier, seed):
             cases.append({"gen": "driver_" + d, "driver": d, "case": c, "seed": seed})
     for i in range(per * 6):
         cases.append({"gen": OWN[i % len(OWN)], "idx": i, "seed": seed})
+    if tier == "thorough":
+        cases.append({"gen": "ambient", "seed": seed})   # the repository's own test-suite under the sanitizer
     return cases
 
 
@@ -303,6 +310,9 @@ def run_case(case, ctx):
         finally:
             _TL.driver_case = None
         ctx.count("driver_cases/%s" % case["driver"])
+        return
+    if g == "ambient":
+        ambient(ctx, "C15")
         return
     rs = gen.rng(case["seed"], case["idx"], g)
     _TL.driver_case = {"own": g, "idx": case["idx"]}
@@ -543,3 +553,42 @@ def own(g, rs, ctx):
         rk = [1] + [3] * (order - 1) + [1]
         validate_tt_rank(tuple(shp), rk)
         validate_tr_rank(tuple(shp), rk)
+
+
+def ambient(ctx, pid):
+    """run the repository's own tests under the input-independent monitors (tlv/ambient_plugin.py) and merge what they saw"""
+    import glob
+    import json
+    import os
+    import subprocess
+    import sys
+    import tempfile
+    repo = os.environ.get("VERIF_REPO", "/repo")
+    out = tempfile.mkdtemp(prefix="tlvamb_", dir="/dev/shm")
+    env = dict(os.environ, TLV_AMBIENT_OUT=os.path.join(out, "amb"), PYTHONDONTWRITEBYTECODE="1", PYTHONWARNINGS="ignore")
+    env["PYTHONPATH"] = os.path.dirname(os.path.dirname(os.path.dirname(os.path.abspath(__file__)))) + os.pathsep + repo
+    _TL.off = True
+    try:
+        p = subprocess.run([sys.executable, "-m", "pytest", "-q", "-p", "no:cacheprovider", "-p", "no:randomly", "-p", "tlv.ambient_plugin", "-n", "8", "--timeout=900",
+                            "--deselect", "tensorly/datasets/tests/test_imports.py::test_indian_pines", "--deselect", "tensorly/tests/test_backend.py::test_svd_time"],
+                           cwd=repo, env=env, capture_output=True, text=True, timeout=2800)
+        tail = p.stdout.strip().splitlines()[-1] if p.stdout.strip() else p.stderr[-200:]
+        ctx.note("ambient_pytest_summary", tail)
+        n = 0
+        for f in glob.glob(os.path.join(out, "amb.*")):
+            d = json.load(open(f))
+            n += d["counters"].get("calls_observed", 0)
+            ctx.count("ambient/calls_observed", d["counters"].get("calls_observed", 0))
+            ctx.count("ambient/rng_traced_calls", d["counters"].get("rng_traced_calls", 0))
+            for sig in d.get("nontrivial", []):
+                ctx.nontriv("ambient:" + sig)
+            for k, v in d["violations"].items():
+                if k.startswith(pid + ":"):
+                    for _ in range(v["count"]):
+                        ctx.violation(k, "[repository test-suite under monitors] " + v["what"], v["witness"])
+        if n == 0:
+            ctx.inconc("ambient test-suite run observed nothing (%s)" % tail)
+    finally:
+        _TL.off = False
+        import shutil
+        shutil.rmtree(out, ignore_errors=True)
